@@ -5,6 +5,7 @@ import DdoModel.Examples.MispDp
 import DdoModel.Engines.ExModelM2s
 import DdoModel.Engines.ExModelAlp
 import DdoModel.Engines.ExModelPsp
+import DdoModel.Engines.ExModelMcp
 /-! Driver engine `exmodel` (C16, knapsack and misp): every observation the harness made on the example's own `Problem`,
     `Relaxation` and `StateRanking` implementations (compiled into the harness from the example's source file) is
     recomputed with the Lean model `KnapsackDp.lean` — the model the well-formedness theorems of `KnapsackModel.lean`
@@ -209,6 +210,7 @@ def exmodelEngine (c i : List String) : Option Res := do
   | [["max2sat"], toks, _] => max2satCase toks i
   | [["alp"], toks, _] => alpCase toks i
   | [["psp"], toks, _] => pspCase toks i
+  | [["mcp"], toks, _] => mcpCase toks i
   | _ => none
 
 end Ddo.Engines
